@@ -281,9 +281,50 @@ def _program_choice(rng):
     return {"text": text}, goals, "gen:" + hashlib.sha256(text.encode()).hexdigest()[:10], "branchy", prog
 
 
+CLI_FLAGS = {"transform_categoricals": "--transform_categoricals", "cond2arithm": "--cond2arithm", "numeric_roots": "--numeric_roots",
+             "numeric_croots": "--numeric_croots"}
+
+
+def cli_flags(vec):
+    """the option vector as command-line flags (solver choice and explicit types have no flag)"""
+    out = [flag for k, flag in sorted(CLI_FLAGS.items()) if vec.get(k)]
+    if "numeric_eps" in vec:
+        out += ["--numeric_eps", repr(vec["numeric_eps"])]
+    if "type_fp_iterations" in vec:
+        out += ["--type_fp_iterations", str(vec["type_fp_iterations"])]
+    return out
+
+
+def _gen_cli_pair(rng, seed, tier):
+    """the same `polar.py file [file] --goals ...` call with and without the option flags: options have to arrive through
+    the argument parser exactly as they do through `settings`"""
+    for _ in range(20):
+        program, goals, pid, kind, ast = _program_choice(rng)
+        if "text" in program and not any("*" in g and "**" not in g for g in goals):
+            break
+    files = [program]
+    if ast is not None and rng.random() < 0.4:
+        sib = gen.sibling(ast, rng)
+        if sib is not None:
+            files.append({"text": render_program(sib, "frac")})
+    bias = "linear" if kind in ("linear", "cubic") and rng.random() < 0.8 else kind
+    vec = {k: v for k, v in option_vector(rng, bias).items() if not k.startswith("_")}
+    if not vec:
+        vec = {"cond2arithm": True}
+    if vec.get("numeric_roots") or vec.get("numeric_croots"):
+        vec["numeric_eps"] = rng.choice([1e-3, 1e-6, 1e-10, 1e-16, 1e-20, 1e-30])
+    argv = ["--goals"] + [f"E({g})" for g in goals]
+    sess = {"kind": "cli", "pid": "cli:" + pid, "files": files, "argv": argv, "options": {}, "goal_monoms": goals}
+    return {"kind": "config-pair", "sessions": [sess], "ops": [{"sid": 0, "step": "main", "pre": []}], "vector": vec,
+            "rng_seed": seed % 1000003, "step_cap": 30 if tier == "quick" else 60, "seed": seed}
+
+
 def gen_case(seed, extra=None):
     rng = _random.Random(seed)
     tier = (extra or {}).get("tier", "quick")
+    side_cli = _random.Random(f"cli|{seed}")
+    if side_cli.random() < 0.12:
+        return _gen_cli_pair(side_cli, seed, tier)
     nprog = rng.choice([1, 1, 1, 2, 2, 3])
     progs = [_program_choice(rng) for _ in range(nprog)]
     if nprog >= 2 and rng.random() < 0.3:
@@ -380,11 +421,21 @@ def _judge_goal(vec, w, r):
         return "na", None
     if eq is False and wd["exact"]:
         return "diff", {"what": "rounded-result-reported-exact", "vector": shown, "under_vector": wd["cf"]["vals"][0][:7], "default": rd["cf"]["vals"][0][:7]}
+    if eq is False and vec.get("numeric_roots"):
+        # "within the requested precision": every growth base of the exact closed form has an approximation within the
+        # isolating-interval width numeric_eps (2*eps: the diagonal of a complex root's rectangle, midpoint rounding)
+        eps = float(vec.get("numeric_eps", 1e-10))
+        worst = canon.bases_within(rd["cf"].get("bases"), wd["cf"].get("bases"), eps)
+        if worst is not None and worst > 2 * eps + 1e-45:
+            return "diff", {"what": "root-approximation-beyond-requested-precision", "vector": shown, "numeric_eps": eps,
+                            "distance": float(worst), "exact_bases": rd["cf"].get("bases"), "approximations": wd["cf"].get("bases")}
     if eq is False:
         dev = _rel_dev(wd["cf"], rd["cf"])
         if dev is not None and dev > 1e-3 and vec.get("numeric_eps", 1e-10) <= 1e-6:
             return "diff", {"what": "deviation-beyond-precision", "vector": shown, "rel_dev_n_le_7": dev,
                             "under_vector": wd["cf"]["vals"][0][:7], "default": rd["cf"]["vals"][0][:7]}
+        if vec.get("numeric_roots") and canon.bases_within(rd["cf"].get("bases"), wd["cf"].get("bases"), 0) is not None:
+            return "ok", {"precision_checked": True}
     return "ok", None
 
 
@@ -403,7 +454,7 @@ def run_case(case, extra=None):
     nops = len(case["ops"])
     tmo = min(cap * (nops + 2) + 60, 12 * cap)
     # world D: the history under the default vector
-    sess_d = [dict(s, options={}, force_cyclic=False) for s in case["sessions"]]
+    sess_d = [dict(s, options={}) if s["kind"] == "cli" else dict(s, options={}, force_cyclic=False) for s in case["sessions"]]
     wd = world.fork_call(world.run_history, _history(case, sess_d), timeout=tmo)
     if wd.get("status") != "done":
         out["outcome"] = "harness_error" if wd.get("status") == "harness_error" else "timeout"
@@ -415,6 +466,9 @@ def run_case(case, extra=None):
     else:
         sess_v = []
         for sid, s in enumerate(case["sessions"]):
+            if s["kind"] == "cli":
+                sess_v.append(dict(s, argv=list(s["argv"]) + cli_flags(vec)))
+                continue
             sv = dict(s, options=dict(opts), force_cyclic=bool(vec.get("_force_cyclic")))
             if vec.get("_explicit_types"):
                 tds = None
@@ -434,9 +488,33 @@ def run_case(case, extra=None):
         out["trace"] = wv.get("trace")
         return out
     problems = []
-    stats = {"compared": 0, "ok": 0, "na": 0, "inconclusive": 0}
+    stats = {"compared": 0, "ok": 0, "na": 0, "inconclusive": 0, "precision_checked": 0}
     pairs = []
     for oi, (op, rv, rd) in enumerate(zip(case["ops"], wv["results"], wd["results"])):
+        if op["step"] == "main" and rv["status"] == "ok" and rd["status"] == "ok":
+            sess = sess_v[op["sid"]]
+            for fi, (fv, fd) in enumerate(zip(rv["data"]["per_file"], rd["data"]["per_file"])):
+                if fv.get("status") != "ok" or fd.get("status") != "ok":
+                    stats["na"] += 1
+                    continue
+                gv, gd = fv["data"]["goals"], fd["data"]["goals"]
+                for key in sorted(set(gv) & set(gd)):
+                    if gv[key].get("cf") is None or gd[key].get("cf") is None:
+                        continue
+                    verdict, detail = _judge_goal(vec, {"status": "ok", "data": gv[key]}, {"status": "ok", "data": gd[key]})
+                    stats["compared"] += 1
+                    if verdict == "diff":
+                        problems.append(dict(detail, op=oi, sid=op["sid"], goal=key, file=fi, pid=sess.get("pid"), session_kind="cli",
+                                             argv=sess["argv"]))
+                    elif verdict == "ok":
+                        stats["ok"] += 1
+                        stats["precision_checked"] += 1 if detail else 0
+                        pairs.append((sess.get("pid"), json.dumps(vec, sort_keys=True), key))
+                    elif verdict == "na":
+                        stats["na"] += 1
+                    else:
+                        stats["inconclusive"] += 1
+            continue
         if not op["step"].startswith("goal:"):
             continue
         sess = sess_v[op["sid"]]
@@ -447,6 +525,7 @@ def run_case(case, extra=None):
             problems.append(dict(detail, op=oi, sid=op["sid"], goal=goal["monom"], pid=sess.get("pid"), session_kind="lib"))
         elif verdict == "ok":
             stats["ok"] += 1
+            stats["precision_checked"] += 1 if detail else 0
             pairs.append((sess.get("pid"), json.dumps(vec, sort_keys=True), goal["monom"]))
         elif verdict == "na":
             stats["na"] += 1
@@ -480,6 +559,9 @@ def run_case(case, extra=None):
             "transform_categoricals_vector": 1 if vec.get("transform_categoricals") else 0,
             "cond2arithm_vector": 1 if vec.get("cond2arithm") else 0,
             "force_cyclic_vector": 1 if vec.get("_force_cyclic") else 0,
+            "cli_pair": 1 if case["sessions"][0]["kind"] == "cli" else 0,
+            "root_precision_checked": stats["precision_checked"],
+            "fine_numeric_eps": 1 if float(vec.get("numeric_eps", 1)) < 1e-10 else 0,
         },
         "digest": hashlib.sha256(json.dumps({"ops": case["ops"], "v": [c20._strip(r) for r in wv["results"]],
                                              "d": [c20._strip(r) for r in wd["results"]]}, sort_keys=True, default=str).encode()).hexdigest()[:16],
@@ -495,6 +577,12 @@ def run_case(case, extra=None):
 def describe(case, problem):
     lines = [f"option vector {case['vector']} versus the default vector; history of {len(case['sessions'])} program(s)"]
     for i, s in enumerate(case["sessions"]):
+        if s["kind"] == "cli":
+            lines.append(f"  polar.py {' '.join(f.get('path', '<inline>') for f in s['files'])} {' '.join(s['argv'])}  [+ {' '.join(cli_flags(case['vector']))}]")
+            for f in s["files"]:
+                if "text" in f:
+                    lines += ["      " + l for l in f["text"].splitlines()] + ["      --"]
+            continue
         src = s["program"].get("path") or "<inline>"
         lines.append(f"  program {i}: {src} goals={[g['monom'] for g in s['goals']]} api={s.get('api')}")
         if "text" in s["program"]:
@@ -600,8 +688,10 @@ def summarize(results, tier):
         "evaluations": len(results),
         "distinct_nontrivial": len(triples),
         "rule": "one case = one history of 1-4 analyses (programs x goals) executed twice in pristine interpreters: under a swarm-drawn "
-                "option vector applied through the real global `settings`, and under the default vector, same schedule; every goal result "
-                "is compared; distinct_nontrivial = distinct (program, option vector, goal) triples for which both sides succeeded and "
+                "option vector applied through the real global `settings` (12 % of the cases: through the flags of the real `polar.main()` "
+                "on one or two files), and under the default vector, same schedule; every goal result is compared; under numeric_roots the "
+                "growth bases of the rounded closed form are additionally compared with those of the exact one at the requested numeric_eps "
+                "(down to 1e-30); distinct_nontrivial = distinct (program, option vector, goal) triples for which both sides succeeded and "
                 "were compared",
         "samples": samples or [{"note": "no sample recorded"}],
         "outcomes": dict(oc),
@@ -612,13 +702,14 @@ def summarize(results, tier):
         "probes": dict(sorted(probes.items())),
         "distinct_world_hashseeds": len(hashseeds),
         "real_components": ["settings (global seam)", "inputparser (transform_categoricals)", "program.normalize_program (cond2arithm, type inference, "
-                            "disable_type_inference)", "recurrences.solver.RecurrenceSolver / CyclicSolver / AcyclicSolver", "utils.expressions.get_all_roots"],
+                            "disable_type_inference)", "recurrences.solver.RecurrenceSolver / CyclicSolver / AcyclicSolver", "utils.expressions.get_all_roots",
+                            "polar.main / cli.argument_parser (CLI pairs)"],
         "stubbed_components": ["none"],
     }
 
 
 REQUIRED = ["normal_forms_differ", "cyclic_solver_used", "numeric_vector", "explicit_types_resolved", "multi_program_history",
-            "transform_categoricals_vector", "cond2arithm_vector", "force_cyclic_vector"]
+            "transform_categoricals_vector", "cond2arithm_vector", "force_cyclic_vector", "cli_pair", "root_precision_checked"]
 
 
 def probe_failures(cov):
